@@ -41,7 +41,7 @@ SD = "Snap"
 MC_TMPL = """SPECIFICATION MCSpec
 VIEW {view}
 CONSTANTS
-  Keys = {{"k1", "k2"}}
+  Keys = {keys}
   Ids = {ids}
   Addrs = {addrs}
   MaxT = {maxt}
@@ -61,7 +61,7 @@ def cfg(c, name, text):
 
 
 def mc(c, name, **kw):
-    d = dict(view="MCViewU", ids='{"i1", "i2", "i3"}', addrs='{"a1", "a2"}', maxt=4, lifes="{1, 2, 3}", timerdrop="TRUE",
+    d = dict(view="MCViewU", keys='{"k1", "k2"}', ids='{"i1", "i2", "i3"}', addrs='{"a1", "a2"}', maxt=4, lifes="{1, 2, 3}", timerdrop="TRUE",
              variant="code", depth=1000000, gen="FALSE")
     d.update(kw)
     return cfg(c, name, MC_TMPL.format(**d))
@@ -215,20 +215,26 @@ def run(c):
     c.cov["exhaustive"] = True
 
     # ---- 2. generation -> replay ---------------------------------------------------------------------
-    gens = [dict(depth=5, maxt=3, lifes="{1, 2}")]
+    def tset(xs):
+        return "{" + ", ".join('"%s"' % x for x in xs) + "}"
+    big = dict(K=["k1", "k2"], I=["i1", "i2", "i3"], A=["a1", "a2"])
+    small = dict(K=["k1"], I=["i1", "i2"], A=["a1"])       # fewer names, longer histories (lapse -> re-register -> resume, rekey)
+    gens = [dict(big, depth=5, maxt=3, lifes="{1, 2}"), dict(small, depth=8, maxt=4, lifes="{1, 2}")]
     if thorough:
-        gens = [dict(depth=6, maxt=3, lifes="{1, 2}")]
+        gens = [dict(big, depth=6, maxt=3, lifes="{1, 2}"), dict(small, depth=11, maxt=4, lifes="{1, 2, 3}")]
     total = 0
     nontrivial = set()
     stats = {"steps": 0, "fwd": 0, "enc": 0, "hs": 0, "mismatch": 0}
     for gi, g in enumerate(gens):
-        r = c.tlc(SD, "MC_SnapTunnel", cfg=mc(c, "gen_%d.cfg" % gi, view="MCView", gen="TRUE", timerdrop="FALSE", **g), timeout=3000, coverage=False)
+        K, I, A = g.pop("K"), g.pop("I"), g.pop("A")
+        r = c.tlc(SD, "MC_SnapTunnel", cfg=mc(c, "gen_%d.cfg" % gi, view="MCView", gen="TRUE", timerdrop="FALSE", keys=tset(K), ids=tset(I),
+                                              addrs=tset(A), **g), timeout=3000, coverage=False)
         hs = c.printed_json(r, "REPLAY")
         if not hs:
             c.fail_tool("generation run printed no behaviours")
         inp = os.path.join(c.work, "replay_in_%d.ndjson" % gi)
         outp = os.path.join(c.work, "replay_out_%d.ndjson" % gi)
-        write_ndjson(inp, [{"ev": "meta", "ids": ["i1", "i2", "i3"], "addrs": ["a1", "a2"]}] + [{"h": h} for h in hs])
+        write_ndjson(inp, [{"ev": "meta", "ids": I, "addrs": A}] + [{"h": h} for h in hs])
         rc, so = c.sh([binp, "replay", inp, outp], timeout=3400)
         if rc != 0:
             c.fail_tool("replay harness failed rc=%s %s %s" % (rc, so[-300:], getattr(c, "last_stderr", "")[-500:]))
@@ -241,7 +247,7 @@ def run(c):
             # only the last step of a history is new (its prefixes are histories of their own), but judge all: cheap
             conf = True
             for si, (spec, real) in enumerate(zip(h, o["steps"])):
-                rep = {"ids": ["i1", "i2", "i3"], "addrs": ["a1", "a2"], "h": h, "step": si, "real": o["steps"]}
+                rep = {"ids": I, "addrs": A, "h": h, "step": si, "real": o["steps"]}
                 if si < len(h) - 1 and conf:
                     # prefix steps were judged as the last step of a shorter history; re-judge only P-monitors silently via same path
                     pass
